@@ -40,10 +40,12 @@ KINDS = ["empty", "obssize", "sampsize", "obsdup", "sampdup", "obsmdsize",
 REACTIONS = ["raise", "ignore", "warn", "print", "call"]
 DEFAULT = {k: "raise" for k in KINDS}
 DEFAULT["empty"] = "ignore"
-SITES = {"empty": ["ctor", "filter"], "obsdup": ["ctor", "update_ids"],
-         "sampdup": ["ctor", "update_ids"], "obssize": ["ctor"],
-         "sampsize": ["ctor"], "obsmdsize": ["ctor", "ctor_long"],
-         "sampmdsize": ["ctor", "ctor_long"]}
+SITES = {"empty": ["ctor", "filter", "copy", "transform_copy"],
+         "obsdup": ["ctor", "update_ids", "copy", "transform_copy"],
+         "sampdup": ["ctor", "update_ids", "copy"],
+         "obssize": ["ctor"], "sampsize": ["ctor"],
+         "obsmdsize": ["ctor", "ctor_long", "copy"],
+         "sampmdsize": ["ctor", "ctor_long", "copy"]}
 MESSAGES = {"empty": "Empty table!", "obssize": "observation IDs differs",
             "sampsize": "sample IDs differs", "obsdup": "Duplicate observation",
             "sampdup": "Duplicate sample", "obsmdsize": "observation metadata",
@@ -71,6 +73,18 @@ def trigger(kind, site):
     predicate recognising the offending table."""
     from biom import Table
     a = np.array([[1.0, 2.0], [3.0, 4.0]])
+    if site in ("copy", "transform_copy"):
+        # an operation that constructs a new table from one that already
+        # offends (it was built while the kind was ignored)
+        from biom.err import seterr
+        old = seterr(**{kind: "ignore"})
+        try:
+            base = trigger(kind, "ctor")()
+        finally:
+            seterr(**old)
+        if site == "copy":
+            return lambda: base.copy()
+        return lambda: base.pa(inplace=False)
     if kind == "obsdup":
         if site == "update_ids":
             t = Table(a, ["o1", "o2"], ["s1", "s2"])
@@ -202,6 +216,7 @@ def flat_statements():
         {"s": "probe", "kind": "obsdup", "site": "ctor"},
         {"s": "probe", "kind": "empty", "site": "filter"},
         {"s": "probe", "kind": "sampsize", "site": "ctor"},
+        {"s": "probe", "kind": "obsdup", "site": "copy"},
     ]
 
 
@@ -226,9 +241,9 @@ def statements(depth):
                   st.sampled_from(KINDS + ["bogus"]),
                   st.sampled_from(["cb1", "cb2", "default"])),
         st.builds(lambda k, i: {"s": "probe", "kind": k, "site": i},
-                  st.sampled_from(KINDS), st.integers(0, 1)),
+                  st.sampled_from(KINDS), st.integers(0, 3)),
         st.builds(lambda k, i: {"s": "probe", "kind": k, "site": i},
-                  st.sampled_from(KINDS), st.integers(0, 1)),
+                  st.sampled_from(KINDS), st.integers(0, 3)),
         st.just({"s": "probe_valid"}),
     )
     if depth <= 0:
